@@ -19,6 +19,8 @@ import RuxModel.Model.URLBuild
                                                              force are the accumulated ones, the capacity the LAST one given.
                                                              <form> (which option functions, in which order) is for the
                                                              implementation side only.
+    gvar <name> <regex>              -> ok     rux.SetGlobalVar(name, regex) is in force for the registrations that
+                                               follow in this case (a plain `{name}` is resolved when its route is registered)
 -/
 namespace Rux.Drv.RouteE
 open Rux.Drv
@@ -32,6 +34,10 @@ structure RouteSt where
   names : Names := []     -- the name index (C15)
   mwIds : List Nat := []  -- routes registered with a route middleware (it writes `M<id>;` before Next())
   routes : List RouteM := []   -- registered routes by id (for BuildURL)
+  gvars : GVars := []          -- `gvar` ops of this case, newest first (they shadow the map of the source text)
+
+/-- the global path variables in force now -/
+def RouteSt.gv (st : RouteSt) : GVars := st.gvars ++ Facts.globalVarsB
 
 def RouteSt.init : RouteSt := { rt := RouterM.new {}, customNF := false, customNA := false, tainted := false, runeSens := false }
 
@@ -102,7 +108,7 @@ def routeStep (st : RouteSt) : List String → RouteSt × String
     if st.tainted then (st, "unsupported") else
     match id.toNat?, parseHexList ms, Bytes.ofHex path with
     | some id, some ms, some path =>
-      match register st.rt id [] ms path (nilh = "1") with
+      match register st.gv st.rt id [] ms path (nilh = "1") with
       | .ok rt' r =>
         let st := if nilh = "3" || nilh = "4" then { st with mwIds := id :: st.mwIds } else st
         let internal :=
@@ -157,7 +163,7 @@ def routeStep (st : RouteSt) : List String → RouteSt × String
     if st.tainted then (st, "unsupported") else
     match id.toNat?, Bytes.ofHex name, parseHexList ms, Bytes.ofHex path with
     | some id, some name, some ms, some path =>
-      match register st.rt id name ms path false with
+      match register st.gv st.rt id name ms path false with
       | .ok rt' r =>
         let _ := api
         ({ st with rt := rt', names := nameRoute st.names name id, routes := r :: st.routes,
@@ -192,6 +198,10 @@ def routeStep (st : RouteSt) : List String → RouteSt × String
           if st.skip path then ({ st with tainted := st.tainted || st.rt.opts.caching }, "unsupported") else
           let (res, rt') := quickMatch st.rt methodGET path
           ({ st with rt := rt' }, s!"{Bytes.toHex path} {kvStr (sortKVs queries)} {matchObs res}")
+    | _, _ => (st, "bad-op")
+  | ["gvar", name, re] =>
+    match Bytes.ofHex name, Bytes.ofHex re with
+    | some name, some re => ({ st with gvars := (name, re) :: st.gvars }, "ok")
     | _, _ => (st, "bad-op")
   | ["ckeys"] =>
     if st.tainted then (st, "unsupported") else
